@@ -1,5 +1,6 @@
 SPECIFICATION FamSpec
 CONSTANTS
+  FunctionLoopFiltersModule = TRUE
   MinN = 4
   MaxN = 5
 INVARIANT KeysAreContributors
